@@ -47,6 +47,8 @@ pub mod builder;
 pub mod delivery;
 mod error;
 mod incomplete_transfer;
+#[cfg(fe2o3_amqp_verif)]
+pub(crate) use incomplete_transfer::IncompleteTransfer as VerifIncompleteTransfer;
 pub mod receiver;
 mod receiver_link;
 pub(crate) mod resumption;
